@@ -72,6 +72,29 @@ theorem precedence (spec : List Opt) (ini : List (Str × CfgVal)) (dodo : List (
       ∀ o ∈ spec, ∃ v, specOf spec ini dodo env ps o = .ok v ∧ p.vals o.name = some v :=
   pipeline_value spec ini dodo env argv p pos hwf hini hdodo h
 
+/-- **precedence, loader options written before the sub-command name** (`doit -f x.py -k list …`, handed to the
+    command as `opt_vals`): at the point where the loader receives its options, an option written there has exactly
+    the written value — whatever the environment, the config sections or the rest of the command line say — and every
+    other option has the value of `precedence` (without DOIT_CONFIG, which is not loaded yet). -/
+theorem precedence_precommand (spec : List Opt) (ov : List (Str × Val)) (ini : List (Str × CfgVal))
+    (dodo : List (Str × Val)) (env : Str → Option Str) (argv : List Str) (ps pf : Params) (pos : List Str)
+    (hov : (ov.map (·.1)).Nodup) (h : pipelinePre spec ov ini dodo env argv = .ok (ps, pf, pos)) :
+    (∀ k v, (k, v) ∈ ov → ps.vals k = some v) ∧
+    ∃ p, pipeline spec ini [] env argv = .ok (p, pos) ∧ ∀ k, k ∉ ov.map (·.1) → ps.vals k = p.vals k := by
+  unfold pipelinePre at h
+  cases hp : pipeline spec ini [] env argv with
+  | error e => simp [hp] at h
+  | ok r =>
+    obtain ⟨p, pos'⟩ := r
+    simp only [hp] at h
+    injection h with h; injection h with h1 h2; injection h2 with h2 h3
+    subst h1; subst h3
+    refine ⟨?_, p, rfl, ?_⟩
+    · intro k v hm
+      rw [applyOptVals_vals ov hov p k, alookup_of_mem k v ov hov hm]
+    · intro k hk
+      rw [applyOptVals_vals ov hov p k, alookup_not_mem k ov hk]
+
 /-- `WF` gives the hypothesis the theorems above use -/
 theorem wf_names (spec : List Opt) (h : WF spec = true) : (spec.map (·.name)).Nodup := by
   simp only [WF, Bool.and_eq_true, decide_eq_true_eq] at h
